@@ -148,13 +148,14 @@ func plasmaHistory(rng *rand.Rand, out *Out) {
 		committed, uncommitted, fusedAmt := st.committed, st.uncommitted, st.fused
 		// the base cost by the harness's own table; the implementation's function is compared with the model on the
 		// same inputs, and must not look at the fields a sender can set freely
-		base, baseOk := refBase(b, st.found)
+		regime := regimeAt(nd, b.MomentumAcknowledged)
+		base, baseOk := refBase(b, regime)
 		{
 			implBase, baseErr := vm.GetBasePlasmaForAccountBlock(st.ctx, b)
 			toContract := types.IsEmbeddedAddress(b.ToAddress)
 			key := big.NewInt(0)
 			if toContract && len(b.Data) >= 4 {
-				key = new(big.Int).SetBytes(append(append([]byte{}, b.ToAddress[:]...), b.Data[:4]...))
+				key = MethodCostKey(regime, b.ToAddress, b.Data)
 			}
 			want := int64(-1)
 			if baseErr == nil {
